@@ -685,7 +685,7 @@ impl Rig {
                 unsafe { libc::setrlimit(libc::RLIMIT_NOFILE, &old) };
                 verif::trace::emit(json!({"e": "EmfileBurst", "tag": tag, "filled": filled, "connected": connected}));
                 for (i, (s_, port)) in socks.into_iter().enumerate() {
-                    let _ = s_.set_read_timeout(Some(Duration::from_millis(5000)));
+                    let _ = s_.set_read_timeout(Some(Duration::from_millis(st["answer_ms"].as_u64().unwrap_or(20000))));
                     let conn = format!("{}_{}", tag, i);
                     let mut cc = ClientConn { stream: s_, buf: Vec::new(), port };
                     let id = format!("{}_r{}", tag, i);
